@@ -236,6 +236,8 @@ def _is_cache(v):
 
 def find_bindings():
     """every (module, attribute, object) in the loaded yastn modules that is an lru_cache object or a Monitor."""
+    import yastn  # noqa: F401  (the scan below needs the package loaded)
+    import yastn.tensor._control_lru  # noqa: F401
     out = []
     for name in sorted(sys.modules):
         if name != "yastn" and not name.startswith("yastn."):
@@ -313,7 +315,11 @@ def reset_invariant(kind, n):
         if kind == "set_cache_maxsize" and ci.maxsize != n:
             bad.append((f"c16:{kind}-not-applied:{lab}", f"after set_cache_maxsize({n}) get_cache_info()['{lab}'].maxsize = {ci.maxsize}"))
     if kind == "set_cache_maxsize":
+        rew, clr, inf = control_lists()
+        managed = {f for _, f in rew} | {f for _, f in clr} | {f for _, f in inf.values()}
         for w, binds in anchored_functions().values():
+            if w.__name__ not in managed:
+                continue  # a memoised function _control_lru does not know about: reported as a note by run()
             sizes = [getattr(m, k).cache_info().maxsize for m, k in binds]
             if n not in sizes:
                 bad.append((f"c16:{kind}-not-applied:{w.__name__}",
@@ -351,7 +357,12 @@ def gen_family(rng, nsym):
             ts = sorted(rng.sample(charges, k))
             legs.append([[list(t), rng.randint(1, 3)] for t in ts])
             s.append(rng.choice((1, -1)))
-        if ndim >= 3 and rng.random() < 0.6:
+        uniform = not paired and rng.random() < 0.45
+        if uniform:  # every leg carries the same space: any two legs of opposite signature can be traced / contracted
+            legs = [[list(e) for e in legs[0]] for _ in range(ndim)]
+            if len(set(s)) == 1:
+                s[rng.randrange(ndim)] *= -1
+        if ndim >= 3 and rng.random() < 0.6 and not uniform:
             s[1] = s[0]  # fusing legs (0, 1) of the sibling family then gives the same fused leg
         if paired:
             h = ndim // 2
@@ -374,7 +385,8 @@ def gen_family(rng, nsym):
             if not keep:
                 keep = [rng.choice(allowed)]
             members.append({"blocks": keep, "dseed": rng.randrange(1 << 30)})
-        return {"nsym": nsym, "ndim": ndim, "paired": paired, "cmax": cmax, "s": s, "n": n, "legs": legs, "members": members}
+        return {"nsym": nsym, "ndim": ndim, "paired": paired, "uniform": uniform, "cmax": cmax, "s": s, "n": n, "legs": legs,
+                "members": members}
     raise RuntimeError("family generator failed")
 
 
@@ -382,6 +394,7 @@ def sibling(fam):
     """the same tensors with legs 0 and 1 exchanged: hard-fusing (0,1) gives the same struct/slices when s0 == s1
     and the same sectors/dimensions, but a different fusion history (hfs)."""
     f = {k: fam[k] for k in ("nsym", "ndim", "paired", "cmax", "n")}
+    f["uniform"] = False
     p = [1, 0] + list(range(2, fam["ndim"]))
     f["s"] = [fam["s"][i] for i in p]
     f["legs"] = [fam["legs"][i] for i in p]
@@ -505,7 +518,7 @@ def _rand_groups(rng, n):
     return groups
 
 
-def gen_template(rng, H, f):
+def gen_template(rng, H, f, kind=None):
     """one operation template on family index f (its sibling, if any, is family f+1 when H['fams'][f+1]['sib'])."""
     fam = H["fams"][f]
     d = fam["ndim"]
@@ -515,9 +528,11 @@ def gen_template(rng, H, f):
              "swap", "ncon", "vdot", "fused_svd", "drop_dot"]
     if fam["paired"]:
         kinds += ["trace", "trace", "ncon_trace", "fused_trace"]
+    if fam.get("uniform"):
+        kinds += ["trace", "trace", "trace", "ncon_trace"]
     if has_sib:
         kinds += ["sib_dot", "sib_unfuse", "sib_add"]
-    kind = rng.choice(kinds)
+    kind = kind or rng.choice(kinds)
     m1, m2, m3 = (rng.randrange(nm) for _ in range(3))
     t = {"kind": kind, "f": f, "m": [m1, m2, m3]}
     if kind in ("tensordot", "drop_dot"):
@@ -528,9 +543,17 @@ def gen_template(rng, H, f):
     elif kind == "vdot":
         t.update(p=_rand_perm(rng, d), consume=rng.random() < 0.3)
     elif kind in ("trace", "ncon_trace", "fused_trace"):
-        h = d // 2
-        pairs = sorted(rng.sample(range(h), rng.randint(1, h)))
-        t.update(p=_rand_perm(rng, d), pairs=pairs, order=rng.random() < 0.5)
+        if fam["paired"]:
+            h = d // 2
+            tp = [[i, i + h] for i in sorted(rng.sample(range(h), rng.randint(1, h)))]
+        else:  # uniform family: disjoint pairs of legs with opposite signatures
+            plus = [i for i in range(d) if fam["s"][i] == 1]
+            minus = [i for i in range(d) if fam["s"][i] == -1]
+            rng.shuffle(plus)
+            rng.shuffle(minus)
+            k = rng.randint(1, min(len(plus), len(minus)))
+            tp = [[a_, b_] if rng.random() < 0.5 else [b_, a_] for a_, b_ in zip(plus[:k], minus[:k])]
+        t.update(p=_rand_perm(rng, d), tp=tp, order=rng.random() < 0.5)
     elif kind in ("fuse", "fused_dot", "fused_add", "fused_svd", "sib_dot", "sib_unfuse", "sib_add"):
         groups = _rand_groups(rng, d) if kind not in ("sib_dot", "sib_unfuse", "sib_add") else [[0, 1]] + [[x] for x in range(2, d)]
         t.update(groups=groups, mode=rng.choice(("hard", "hard", "meta", None)), second=rng.random() < 0.4,
@@ -557,6 +580,30 @@ def gen_template(rng, H, f):
     return t
 
 
+def vary_template(rng, H, t):
+    """a near-copy of template t: same kind and family, one or two parameters re-drawn (same struct, slightly different
+    other arguments: what a cache keyed on too few arguments confuses)"""
+    g = gen_template(rng, H, t["f"], kind=t["kind"])
+    fields = [k for k in t if k not in ("kind", "f")]
+    t2 = {k: (list(v) if isinstance(v, list) else v) for k, v in t.items()}
+    if t["kind"] in ("tensordot", "drop_dot") and rng.random() < 0.7:
+        chosen = [rng.choice(("pb", "pb", "pb", "m", "m", "legs", "pa"))]   # same first operand, different second / order
+    elif t["kind"] == "trace" and rng.random() < 0.6:
+        chosen = [rng.choice(("p", "tp"))]
+    else:
+        chosen = ["m"] if rng.random() < 0.3 else rng.sample(fields, min(len(fields), rng.choice((1, 1, 2))))
+    for k in chosen:
+        if k == "m":
+            i = 1 if t["kind"] in ("tensordot", "drop_dot") else rng.randrange(3)
+            t2["m"] = list(t["m"])
+            t2["m"][i] = g["m"][i]
+        else:
+            t2[k] = g[k]
+            if t["kind"] == "ncon" and k in ("legs", "outs"):
+                t2["legs"], t2["outs"] = g["legs"], g["outs"]
+    return t2
+
+
 def _T(a, p, consume=False):
     if p is not None and list(p) != list(range(len(p))):
         a = a.transpose(axes=tuple(p))
@@ -574,6 +621,14 @@ def exec_template(pool, t, v):
     import yastn
     f = t["f"]
     kind = t["kind"]
+    if kind == "multi":   # a template and near-copies of it inside ONE operation (same struct, slightly different arguments)
+        out = []
+        for sub in t["subs"]:
+            try:
+                out.append(exec_template(pool, sub, v))
+            except Exception as e:
+                out.append(["raised", type(e).__name__, str(e)])
+        return out
     m1, m2, m3 = t["m"]
     a = pool.tensor(f, v, m1)
     b = pool.tensor(f, v, m2)
@@ -595,19 +650,17 @@ def exec_template(pool, t, v):
     if kind == "vdot":
         return [yastn.vdot(_T(a, t["p"], t["consume"]), _T(b, t["p"]))]
     if kind == "trace":
-        h = pool.H["fams"][f]["ndim"] // 2
         a1 = _T(a, t["p"])
-        ax0 = tuple(t["p"].index(i) for i in t["pairs"])
-        ax1 = tuple(t["p"].index(i + h) for i in t["pairs"])
+        ax0 = tuple(t["p"].index(i) for i, _ in t["tp"])
+        ax1 = tuple(t["p"].index(j) for _, j in t["tp"])
         return [a1.trace(axes=(ax0, ax1))]
     if kind == "ncon_trace":
         d = pool.H["fams"][f]["ndim"]
-        h = d // 2
-        inds, o = [0] * d, 0
+        inds, o = [None] * d, 0
+        for lab, (i, j) in enumerate(t["tp"], start=1):
+            inds[i] = inds[j] = lab
         for i in range(d):
-            if i % h in t["pairs"]:
-                inds[i] = (i % h) + 1
-            else:
+            if inds[i] is None:
                 inds[i] = -o
                 o += 1
         return [yastn.ncon([a], [tuple(inds)])]
@@ -637,7 +690,7 @@ def exec_template(pool, t, v):
         if t["drop"]:
             A, B = A.drop_leg_history(), B.drop_leg_history()
         if kind == "fused_dot":
-            out.append(yastn.tensordot(A, B, axes=(t["pos"], t["pos"]), conj=(0, 1)))
+            out.append(yastn.tensordot(A, B, axes=(t["pos"] % A.ndim, t["pos"] % A.ndim), conj=(0, 1)))
             out.append(yastn.vdot(A, B))
         elif kind == "fused_add":
             out.append(A + B)
@@ -677,7 +730,7 @@ def exec_template(pool, t, v):
         ax = [t["p"].index(i) for i in t["axes"]]
         if t["charge"]:
             return [a1.swap_gate(axes=tuple(ax), charge=tuple(t["ch"]))]
-        if t["grouped"]:
+        if t["grouped"] and len(ax) == 4:
             return [a1.swap_gate(axes=((ax[0], ax[1]), (ax[2], ax[3])))]
         return [a1.swap_gate(axes=tuple(ax))]
     if kind == "ncon":
@@ -758,15 +811,25 @@ def evaluate(pool, t, v):
 # ==========================================================================================
 
 def gen_variants(rng, fams):
+    """variants that differ in exactly one respect from a base: the group only, the fermionic flag only, the tensordot
+    policy only (so that a key omitting that respect collides), plus a random one."""
     syms = [x for x in SYM_GROUPS[fams[0]["nsym"]] if all(x in compatible_syms(f) for f in fams)]
     nsym = fams[0]["nsym"]
     ferms = [False, True] if nsym == 1 else [False, True, [True, False], [False, True]]
-    base = {"fermionic": rng.choice(ferms), "policy": rng.choice(("fuse_to_matrix", "fuse_contracted", "no_fusion")),
+    truthy = [x for x in ferms if x is not False]
+    policies = ("fuse_to_matrix", "fuse_contracted", "no_fusion")
+    base = {"fermionic": rng.choice(truthy) if rng.random() < 0.7 else False, "policy": rng.choice(policies),
             "fusion": rng.choice(("hard", "hard", "meta"))}
-    out = [dict(base, sym=s) for s in syms]           # differ in the group only
-    for _ in range(rng.randint(1, 3)):                 # plus variants that differ in flags / policy
-        out.append({"sym": rng.choice(syms), "fermionic": rng.choice(ferms),
-                    "policy": rng.choice(("fuse_to_matrix", "fuse_contracted", "no_fusion")), "fusion": rng.choice(("hard", "meta"))})
+    out = [dict(base, sym=s) for s in syms]                                   # differ in the group only
+    s0 = rng.choice(syms)
+    others = [x for x in ferms if x != base["fermionic"]]
+    for fm in rng.sample(others, min(len(others), rng.randint(1, 2))):
+        out.append(dict(base, sym=s0, fermionic=fm))                           # differ in the fermionic flag only
+    if rng.random() < 0.7:
+        out.append(dict(base, sym=s0, policy=rng.choice([x for x in policies if x != base["policy"]])))  # policy only
+    if rng.random() < 0.4:
+        out.append({"sym": rng.choice(syms), "fermionic": rng.choice(ferms), "policy": rng.choice(policies),
+                    "fusion": rng.choice(("hard", "meta"))})
     uniq = []
     for x in out:
         if x not in uniq:
@@ -775,7 +838,7 @@ def gen_variants(rng, fams):
 
 
 def gen_history(rng, resizing, quick):
-    nsym = rng.choice((1, 1, 1, 2))
+    nsym = rng.choice((1, 1, 2))
     fams = []
     for _ in range(rng.choice((1, 1, 2))):
         fam = gen_family(rng, nsym)
@@ -788,7 +851,13 @@ def gen_history(rng, resizing, quick):
     variants = gen_variants(rng, fams)
     H = {"fams": fams, "variants": variants, "init": None, "pristine": not resizing}
     prim = [i for i, f in enumerate(fams) if not f.get("sib")]
-    H["templates"] = [gen_template(rng, H, rng.choice(prim)) for _ in range(rng.randint(4, 8))]
+    tpl = [gen_template(rng, H, rng.choice(prim)) for _ in range(rng.randint(2, 4))]
+    for _ in range(rng.randint(3, 6)):
+        tpl.append(vary_template(rng, H, rng.choice(tpl)) if rng.random() < 0.6 else gen_template(rng, H, rng.choice(prim)))
+    for _ in range(rng.randint(1, 2)):
+        b = rng.choice([t for t in tpl if t["kind"] != "multi"])
+        tpl.append({"kind": "multi", "f": b["f"], "m": b["m"], "subs": [b] + [vary_template(rng, H, b) for _ in range(rng.randint(1, 3))]})
+    H["templates"] = tpl
     if resizing:
         H["init"] = rng.choice(SIZES)
     ev = []
@@ -869,6 +938,8 @@ def run_history(ctx, H, deadline=None):
         finally:
             ST.bypass -= 1
         ctx.count(f"op:{t['kind']}")
+        if t["kind"] == "multi":
+            ctx.count(f"op:multi:{t['subs'][0]['kind']}")
         if warm[0] == "exc":
             ctx.count(f"op-raises:{warm[1]}")
         for kind, q, detail in fails[:3]:
@@ -923,6 +994,8 @@ def part_a(ctx, n_events):
     ctx.count("partA:tracked_functions", len(tracked))
     if len(inf) < 18 or len(rew) < 18:
         ctx.notes.append(f"_control_lru lists: {len(rew)} re-wrapped, {len(clr)} cleared, {len(inf)} reported")
+    whole_run = {"rerun": {"seed": ctx.seed, "tier": ctx.tier}}
+    broken = set()
     hist = {q: [] for q, _, _ in tracked}   # model events
     obs = {q: [] for q, _, _ in tracked}    # observed rows [hit, currsize, hits, misses, maxsize]
     log = []
@@ -939,7 +1012,7 @@ def part_a(ctx, n_events):
             hist[q].append([2, n])
             snap(q, g, -1)
         for key, text in reset_invariant("set_cache_maxsize", n):
-            ctx.fail("oracle", key, text, case={"partA_events": list(log)}, concrete=True)
+            ctx.fail("oracle", key, text, case=dict(whole_run, partA_events=list(log)), concrete=True)
 
     resize(DEFAULT_MAXSIZE)
     for _ in range(n_events):
@@ -952,27 +1025,39 @@ def part_a(ctx, n_events):
                 hist[q].append([1])
                 snap(q, g, -1)
             for key, text in reset_invariant("clear_cache", None):
-                ctx.fail("oracle", key, text, case={"partA_events": list(log)}, concrete=True)
+                ctx.fail("oracle", key, text, case=dict(whole_run, partA_events=list(log)), concrete=True)
         elif r < 0.14:
             resize(rng.choice((0, 1, 2, 3, DEFAULT_MAXSIZE)))
         else:
             i = rng.randrange(len(tracked))
             q, g, keys = tracked[i]
+            if not keys:
+                continue
             # skewed key choice so that hits, evictions and re-insertions all occur at capacities 1..3
             k = min(int(rng.expovariate(0.7)), len(keys) - 1)
             args, kwargs = keys[k]
             fn = g()
             h0 = fn.cache_info().hits
-            val = fn(*args, **kwargs)
-            hit = int(fn.cache_info().hits != h0)
             log.append(["call", q, k])
+            try:
+                val = fn(*args, **kwargs)
+                ref = fn.__wrapped__(*args, **kwargs)
+            except Exception as e:
+                # these very arguments were accepted when recorded: the function depends on something else
+                ctx.fail("oracle", f"c16:direct-call-raises:{q}",
+                         f"{q} raises {type(e).__name__}: {e} on an argument tuple it accepted earlier in this process (not a function of its arguments)",
+                         case=dict(whole_run, partA_events=list(log)), concrete=True)
+                tracked[i] = (q, g, [])
+                broken.add(q)
+                continue
+            hit = int(fn.cache_info().hits != h0)
             hist[q].append([0, k])
             snap(q, g, hit)
             ctx.count("partA:calls")
-            df = deep_diff(val, fn.__wrapped__(*args, **kwargs))
+            df = deep_diff(val, ref)
             if df:
                 ctx.fail("oracle", f"c16:direct-call-value:{q}", f"{q}: value returned through the cache differs from the undecorated function at {df}",
-                         case={"partA_events": list(log)}, concrete=True)
+                         case=dict(whole_run, partA_events=list(log)), concrete=True)
     if ctx.drv is None:
         return
     res = ctx.drv.call({"op": "replay_batch", "cases": [{"cap": DEFAULT_MAXSIZE, "events": hist[q]} for q, _, _ in tracked]})
@@ -980,6 +1065,8 @@ def part_a(ctx, n_events):
         ctx.fail("correspondence", "c16:model-error", f"model driver error: {res}")
         return
     for (q, _, _), rows in zip(tracked, res["res"]):
+        if q in broken:
+            continue
         ctx.count("partA:rows_compared", len(rows))
         for j, (m, o) in enumerate(zip(rows, obs[q])):
             if m[:5] != o:
@@ -1018,10 +1105,10 @@ def run(ctx):
             ctx.notes.append(f"memoised function {w.__module__}.{w.__name__} is not re-wrapped by set_cache_maxsize")
     install()
     ST.record = {}
-    budget = 40.0 if quick else 600.0
+    budget = 42.0 if quick else 480.0
     t_end = ctx.t0 + budget
-    n_pristine = 50 if quick else 600
-    n_resizing = 150 if quick else 3000
+    n_pristine = 100 if quick else 800
+    n_resizing = 350 if quick else 4000
     nh = 0
     for phase, count in (("pristine", n_pristine), ("resizing", n_resizing)):
         limit = ctx.t0 + (budget * 0.3 if phase == "pristine" else budget)
@@ -1057,10 +1144,13 @@ def search(ctx, broken, budget):
 
 def replay(ctx, obj):
     case = (obj.get("finding") or {}).get("case") or obj
-    if "partA_events" in case:
+    if "events" in case and "templates" in case:      # one history of the monitored workload: self-contained
+        run_history(ctx, case)
+        return
+    if "partA_events" in case:                         # clear/resize bookkeeping is replayable without the argument tuples
         import yastn
-        from functools import lru_cache
         uninstall()
+        n0 = len(ctx.findings)
         for ev in case["partA_events"]:
             if ev[0] == "resize":
                 yastn.set_cache_maxsize(ev[1])
@@ -1072,8 +1162,10 @@ def replay(ctx, obj):
                 continue
             for key, text in reset_invariant(kind, n):
                 ctx.fail("oracle", key, text, case=case, concrete=True)
-        return
-    if "events" in case and "templates" in case:
-        run_history(ctx, case)
-        return
+        if len(ctx.findings) > n0:
+            return
+    rr = case.get("rerun") or {}
+    if rr:                                             # the run is a deterministic function of (seed, tier)
+        ctx.rng = random.Random(f"{ctx.pid}-{rr['seed']}")
+        ctx.quick = rr.get("tier", "quick") == "quick"
     run(ctx)
